@@ -320,9 +320,19 @@ func (g *c15gen) selectCore(depth int, single bool) string {
 		sql += " WHERE " + g.cond("where", depth)
 	}
 	if g.r.Intn(4) == 0 {
-		switch g.r.Intn(4) {
+		switch g.r.Intn(8) {
 		case 0:
 			sql += " GROUP BY ROLLUP(" + g.scalar("group-by", depth) + ")"
+		case 1:
+			sql += " GROUP BY ROLLUP(" + g.scalar("group-by", depth) + ", " + g.scalar("group-by", depth) + ", " + g.scalar("group-by", depth) + ")"
+		case 2:
+			sql += " GROUP BY CUBE(" + g.scalar("group-by", depth) + ", " + g.scalar("group-by", depth) + ")"
+		case 3:
+			// grouping sets of every width, each member a reference written nowhere else
+			sql += " GROUP BY GROUPING SETS ((" + g.scalar("group-by", depth) + ", " + g.scalar("group-by", depth) + "), (" + g.scalar("group-by", depth) + "), (), (" +
+				g.scalar("group-by", depth) + ", " + g.scalar("group-by", depth) + ", " + g.scalar("group-by", depth) + "))"
+		case 4:
+			sql += " GROUP BY " + g.scalar("group-by", depth) + ", ROLLUP(" + g.scalar("group-by", depth) + ", " + g.scalar("group-by", depth) + ")"
 		default:
 			sql += " GROUP BY " + g.keys("group-by", depth, nil)
 		}
